@@ -253,6 +253,11 @@ func runLimiter(t *testing.T, scAny any, trace bool) *Outcome {
 	o := &Outcome{}
 	res := Bubble(t, sc.Sched.config(trace), nil, func() {
 		simrt.Event("scenario %x", simrt.Hash(hashBytes(mustJSON(sc))))
+		if len(sc.Threads) > 0 {
+			simrt.Probe("run_class.concurrent")
+		} else {
+			simrt.Probe("run_class.sequential")
+		}
 		if len(sc.Threads) > 0 && sc.Kind == "C18" {
 			runLimiterBoundConcurrent(o, sc)
 			return
